@@ -570,6 +570,84 @@ def run_builds(pid, tier, t0):
     log("[%s] %s: 6 builds x %d spec transitions replayed, corpus digests %s, %.0fs" % (pid, tier, transitions, "identical" if len({r["digest"] for r in results}) == 1 else "DIFFER", time.time() - t0))
     return 1 if nviol else 0
 
+# ------------------------------------------------------------------ C18: threads
+def run_threads(pid, tier, t0):
+    import subprocess
+    ez = report_replay.ez = vlib.build("tsan")
+    work = vlib.scratch("c18")
+    # per-thread call sequences = paths of the I/O slice (construct, declare, frames, save+load generations) with the spec's expected results
+    edges = os.path.join(work, "edges")
+    summ = vlib.dump_edges("MC_IO.tla", "MC_IO.cfg", io_consts("quick"), edges)
+    lines = [l for l in open(edges) if l.startswith('"{')]
+    cases = [json.loads(json.loads(l)) for l in lines]
+    rnd = random.Random(vlib.seed())
+    # deterministic leg: cases with exactly 3 calls (path of 2 + the call) for the TLC-enumerated interleavings of 2 threads x 3 calls;
+    # they must contain a save+load so that file paths are exercised too
+    three = [c_ for c_ in cases if len(c_["path"]) == 2]
+    deep = sorted(cases, key=lambda c_: -len(c_["path"]))[:400]
+    reload_deep = [c_ for c_ in deep if any(o.get("op") == "Reload" for o in c_["path"] + [c_["op"]])]
+    two = [c_ for c_ in cases if len(c_["path"]) == 1]
+    pool = three[:60] + two[:40] + reload_deep[:200] + rnd.sample(cases, min(200, len(cases)))
+    # interleavings from the specification
+    cfg = os.path.join(work, "thr.cfg")
+    orders = []
+    for nth, ln in ((2, 3), (3, 2)) if tier == "quick" else ((2, 3), (3, 2), (2, 4), (3, 3)):
+        vlib.write_cfg(cfg, "EzThreads.cfg", {"NThreads": nth, "LenEach": ln})
+        rc, out = vlib.run_tlc("EzThreads.tla", cfg, workers=1, timeout=600)
+        if vlib.tlc_errors(out): raise Infra("EzThreads failed: %s" % out[-1500:])
+        os_ = [json.loads(json.loads(l))["order"] for l in out.splitlines() if l.startswith('"{')]
+        orders.append((nth, ln, os_))
+    inp = os.path.join(work, "threads.in")
+    nsched = 0
+    with open(inp, "w") as f:
+        for c_ in pool: f.write(json.dumps(c_) + "\n")
+        bylen = {}
+        for i, c_ in enumerate(pool): bylen.setdefault(len(c_["path"]) + 1, []).append(i)
+        for nth, ln, os_ in orders:
+            cand = bylen.get(ln, [])
+            if len(cand) < nth: continue
+            for o in os_:
+                picks = rnd.sample(cand, nth)
+                f.write(json.dumps({"cases": picks, "order": o}) + "\n"); nsched += 1
+    env = dict(os.environ); env["TSAN_OPTIONS"] = "halt_on_error=1:exitcode=66:second_deadlock_stack=1"
+    rounds = 60 if tier == "quick" else 600
+    r = subprocess.run("%s threads --dir %s/w --threads 8 --rounds %d --seed %d < %s" % (ez, work, rounds, vlib.seed(), inp), shell=True,
+                       stdout=subprocess.PIPE, stderr=subprocess.PIPE, text=True, env=env, timeout=3000)
+    fails = []; summary = None
+    for l in r.stdout.splitlines():
+        if not l.strip(): continue
+        j = json.loads(l)
+        if j.get("summary"): summary = j
+        else: fails.append(j)
+    nviol = 0
+    if r.returncode != 0 or summary is None:
+        kind = "data race reported by ThreadSanitizer" if r.returncode == 66 or "ThreadSanitizer" in r.stderr else "abnormal termination (exit %s)" % r.returncode
+        p = vlib.save_replay(pid, "tsan", {"property": pid, "kind": "threads", "what": kind, "stderr": r.stderr[-6000:]})
+        log("VIOLATION property=%s replay=%s" % (pid, p)); nviol += 1
+        log("  %s while %d threads replayed independent call sequences:\n%s" % (kind, 8, "\n".join("    " + x for x in r.stderr.splitlines()[:25])))
+    keys = {}
+    for f in fails:
+        d = f["diffs"][0]
+        keys.setdefault("%s:%s:%s" % (f["op"].get("op"), d["k"], norm_path(d.get("path", ""))), f)
+    for key, f in list(keys.items())[:8]:
+        p = vlib.save_replay(pid, key, {"property": pid, "kind": "replay", "path": f["path"], "op": f["op"], "diffs": f["diffs"], "note": "observed while other threads were running"})
+        log("VIOLATION property=%s replay=%s" % (pid, p)); nviol += 1
+        log("  a thread did not observe the single-thread result of its own call sequence: %s expected %s got %s" % (key, json.dumps(f["diffs"][0].get("exp"))[:100], json.dumps(f["diffs"][0].get("act"))[:100]))
+    runs = summary["cases"] if summary else 0
+    cov = {"evaluations": runs, "distinct_nontrivial": nsched + rounds,
+           "rule": "one evaluation = one thread replaying a path of the MC_IO slice (own object, own directory) while the other threads do the same; "
+                   "distinct schedules = %d TLC-enumerated call-granularity interleavings (EzThreads.tla: 2 threads x 3 calls, 3 threads x 2 calls%s) forced by token passing "
+                   "+ %d free-running rounds of 8 threads under ThreadSanitizer (sampled OS schedules); every thread's results are compared with the specification's" %
+                   (nsched, "" if tier == "quick" else ", 2 x 4, 3 x 3", rounds),
+           "samples": [{"order": o_[2][0], "threads": o_[0]} for o_ in orders][:2] + [{"path_ops": [o.get("op") for o in pool[0]["path"]] + [pool[0]["op"].get("op")]}],
+           "scheduled_interleavings": nsched, "free_rounds": rounds, "threads": 8, "thread_runs": runs, "mismatches": len(fails),
+           "spec_states": summ["distinct"], "spec_transitions": summ["generated"] - 1}
+    cov["known_findings_observed"] = known_findings(pid, ez)
+    vlib.write_evidence(pid, tier, "exploration", cov, time.time() - t0, nviol,
+                        ["call-granularity interleavings are enumerated by TLC and forced; instruction-level schedules are sampled (OS scheduler) under ThreadSanitizer"])
+    log("[%s] %s: %d thread runs (%d forced interleavings, %d free rounds x 8 threads under TSan), %d mismatches, rc=%s, %.0fs" % (pid, tier, runs, nsched, rounds, len(fails), r.returncode, time.time() - t0))
+    return 1 if nviol else 0
+
 SAN_ENV = {"ASAN_OPTIONS": "detect_leaks=0:alloc_dealloc_mismatch=1:abort_on_error=1:detect_stack_use_after_return=0",
            "UBSAN_OPTIONS": "print_stacktrace=1:halt_on_error=1"}
 def run_memsafe(pid, tier, t0):
@@ -622,6 +700,7 @@ def run_format(pid, tier, t0):
         "rates in generated files come from the exact-rate table; the two multi-word reserved header fields are zero"])
 
 CHECKS = {
+    "C18": run_threads,
     "C19": run_builds,
     "C17": run_limits,
     "C16": run_corrupt,
